@@ -61,7 +61,7 @@ def err_of(e, op):
     if isinstance(e, AttributeError):
         return "err Attr"
     if isinstance(e, ValueError):
-        if op == "set" and "outside the bounds" in str(e):
+        if op in ("set", "iadd") and "outside the bounds" in str(e):
             return "err OutOfBounds"
         return "err Value"
     if type(e) is Exception:
@@ -133,6 +133,9 @@ class LegacyImpl:
             if k == "remove":
                 sp.remove_agent(self.agent(w[1]))
                 return "ok"
+            if k == "setpos":
+                self.agent(w[1]).pos = self.pt(w[2], w[3])  # the user, not the space
+                return "ok"
             if k == "pos":
                 p = self.agent(w[1]).pos
                 return "ok pos=None" if p is None else "ok pos=" + ",".join(to_units(v) for v in p)
@@ -167,6 +170,7 @@ class ExpImpl:
         dims = [[b[2 * i] / U, b[2 * i + 1] / U] for i in range(self.nd)]
         self.space = ESpace(dims, torus=bool(torus), random=self.model.random, n_agents=cap)
         self.agents, self.ids = {}, {}
+        self.held = {}  # references to space.agent_positions the "user" keeps
 
     def pt(self, xs):
         v = [int(x) / U for x in xs]
@@ -205,6 +209,30 @@ class ExpImpl:
             if k == "set":
                 self.agents[int(w[1])].position = self.pt(w[2:])
                 return "ok"
+            if k == "iadd":
+                ag = self.agents[int(w[1])]
+                ag.position += self.pt(w[2:])
+                return "ok"
+            if k == "poke":
+                p = self.agents[int(w[1])].position  # whatever the getter hands out
+                p[int(w[2])] = int(w[3]) / U
+                return "ok"
+            if k == "raw":
+                sp.agent_positions[int(w[1])] = self.pt(w[2:])
+                return "ok"
+            if k == "compat":
+                if int(w[1]) not in self.agents:
+                    return "ok"  # no such object: nothing to call
+                self.agents[int(w[1])].pos = self.pt(w[2:])
+                return "ok"
+            if k == "hold":
+                self.held[int(w[1])] = sp.agent_positions
+                return "ok len=%d" % len(self.held[int(w[1])])
+            if k == "hread":
+                return "ok rows=" + ";".join(",".join(to_units(c) for c in row) for row in self.held[int(w[1])])
+            if k == "hraw":
+                self.held[int(w[1])][int(w[2])] = self.pt(w[3:])
+                return "ok"
             if k == "get":
                 return "ok pos=" + ",".join(to_units(v) for v in self.agents[int(w[1])].position.copy())
             if k == "remove":
@@ -213,12 +241,12 @@ class ExpImpl:
             if k == "agents":
                 return "ok agents=" + ",".join(map(str, sorted(self.ids[a] for a in sp.agents)))
             if k == "radius":
-                ags, ds = sp.get_agents_in_radius(self.pt(w[1:1 + nd]), int(w[1 + nd]) / U)
+                ags, ds = sp.get_agents_in_radius(self.pt(w[1:-1]), int(w[-1]) / U)
                 return "ok res=" + self.fmt_pairs(self.pairs(ags, ds))
             if k == "knn":
-                p = self.pt(w[1:1 + nd])
-                ags, ds = sp.get_k_nearest_agents(p, int(w[1 + nd]))
-                all_d2 = [self.d2(d) for d in sp.calculate_distances(self.pt(w[1:1 + nd]))[0]]
+                p = self.pt(w[1:-1])
+                ags, ds = sp.get_k_nearest_agents(p, int(w[-1]))
+                all_d2 = [self.d2(d) for d in sp.calculate_distances(self.pt(w[1:-1]))[0]]
                 return "ok res=" + fmt_knn(knn_canon(all_d2, self.pairs(ags, ds))[1])
             if k == "nir":
                 ags, ds = self.agents[int(w[1])].get_neighbors_in_radius(int(w[2]) / U)
@@ -231,8 +259,11 @@ class ExpImpl:
                 all_d2 = [self.d2(d) for d in sp.calculate_distances(me.position.copy())[0]]
                 # the (k+1)-nearest answer the method filtered `me` out of
                 zeros = sum(1 for d in all_d2 if d == 0)
-                if zeros > kk + 1:
-                    return "ok res=ambiguous"  # more than k+1 agents coincide with `me`: numpy decides who is returned
+                if (zeros > kk + 1 and len(res) in (kk, kk + 1) and all(d == 0 for _, d in res)
+                        and len({a for a, _ in res}) == len(res) and int(w[1]) not in {a for a, _ in res}):
+                    # more than k+1 agents coincide with `me`: numpy decides whether `me` was among the k+1 it picked, so the
+                    # answer is k or k+1 distinct other agents at distance 0 (theorem C10_exp_nearest_neighbors_ties)
+                    return "ok res=ambiguous"
                 full = res + [(int(w[1]), 0)]
                 tie, can = knn_canon(all_d2, full)
                 return "ok res=" + fmt_knn([x for x in can if x[1] != int(w[1])])
@@ -367,9 +398,14 @@ def oracle(sc, obs):
                         sp.order.remove(a)
                 elif o == "ok":
                     bad.append(f"accept-invalid: {line} of an agent that is not in the space")
+            elif k == "setpos":
+                # agent.pos assigned behind the space's back: not a call of the property's histories.  The property knows no
+                # position of that agent until the space assigns one again (and range queries are not judged meanwhile)
+                if int(w[1]) in sp.pos:
+                    sp.pos[int(w[1])] = None
             elif k == "pos":
                 a = int(w[1])
-                if a in sp.pos:
+                if sp.pos.get(a) is not None:
                     want = "ok pos=%d,%d" % sp.pos[a]
                     if o != want:
                         bad.append(f"pos-last-assigned: agent {a} reports {o}, last assigned {want}")
@@ -381,7 +417,7 @@ def oracle(sc, obs):
                 pt, r, incl = (int(w[1]), int(w[2])), int(w[3]), int(w[4])
                 if not o.startswith("ok nbrs="):
                     bad.append(f"query-raised: {line} -> {o}")
-                elif sp.metric_ok(pt):
+                elif sp.metric_ok(pt) and all(v is not None for v in sp.pos.values()):
                     want = sorted(a for a, q in sp.pos.items() if sp.d2(q, pt) <= r * r and (incl or sp.d2(q, pt) > 0))
                     if o != "ok nbrs=" + ",".join(map(str, want)):
                         bad.append(f"radius-exact: {line} -> {o}, agents within the radius are {want}")
@@ -402,6 +438,18 @@ def oracle(sc, obs):
                     if hx * hx + hy * hy != int(prev[1][6:]):
                         bad.append(f"heading-length: {line} -> {o}, squared length {hx*hx+hy*hy} but distance squared {prev[1][6:]}")
         else:
+            ncoord = {"set": len(w) - 2, "iadd": len(w) - 2, "raw": len(w) - 2, "radius": len(w) - 2, "knn": len(w) - 2,
+                      "inb": len(w) - 1, "correct": len(w) - 1,
+                      "dists": (w.index(":") if ":" in w else len(w)) - 1, "diffs": (w.index(":") if ":" in w else len(w)) - 1}.get(k)
+            if ncoord is not None and ncoord != nd:
+                # a vector that is not a point of the space (numpy broadcasts it or raises): the property does not speak about the
+                # call; if it went through, the position it left behind is not known to the property until the next assignment
+                if o == "ok" and k in ("set", "iadd", "raw"):
+                    hit = sp.order[int(w[1])] if k == "raw" and int(w[1]) < len(sp.order) else int(w[1]) if k != "raw" else None
+                    if hit in sp.pos:
+                        sp.pos[hit] = None
+                prev = (w, o)
+                continue
             if k == "new":
                 a = int(w[1])
                 if o != "ok":
@@ -422,6 +470,42 @@ def oracle(sc, obs):
                         bad.append(f"reject-valid: {line} -> {o}")
                     else:
                         sp.pos[a] = v
+            elif k == "iadd":
+                # `agent.position += v` assigns (last assigned value) + v
+                a, dv = int(w[1]), tuple(map(int, w[2:]))
+                if sp.pos.get(a) is not None:
+                    v = sp.assign(tuple(x + d for x, d in zip(sp.pos[a], dv)))
+                    if v is None:
+                        if o == "ok":
+                            bad.append(f"accept-invalid: {line} accepted on a bounded space")
+                        elif o != "err OutOfBounds":
+                            bad.append(f"reject-kind: {line} -> {o}")
+                    elif o != "ok":
+                        bad.append(f"reject-valid: {line} -> {o}")
+                    else:
+                        sp.pos[a] = v
+            elif k in ("poke", "compat"):
+                pass  # a write into what the getter returned / the ignored `pos` setter is not an assignment: judged by the next `get`
+            elif k == "raw":
+                # a write through the public view lands, unvalidated, in the row of the i-th agent of space.agents
+                i, p = int(w[1]), tuple(map(int, w[2:]))
+                if i < len(sp.order):
+                    if o != "ok":
+                        bad.append(f"reject-valid: {line} -> {o}")
+                    else:
+                        sp.pos[sp.order[i]] = p
+            elif k == "hraw":
+                # a write through a reference to agent_positions kept from earlier: whether it still reaches the space depends on
+                # re-allocations, which the property does not speak about -- no position is known afterwards until assigned again
+                if o == "ok":
+                    for a in sp.pos:
+                        sp.pos[a] = None
+            elif k == "hread":
+                # agent_positions, freshly taken, lists the positions of space.agents in order
+                if prev and prev[0] == ["hold", w[1]] and all(v is not None for v in sp.pos.values()):
+                    want = "ok rows=" + ";".join(",".join(map(str, sp.pos[a])) for a in sp.order)
+                    if o != want:
+                        bad.append(f"view-rows: agent_positions shows {o}, positions of space.agents in order are {want}")
             elif k == "remove":
                 a = int(w[1])
                 if a in sp.pos:
@@ -519,7 +603,7 @@ class Gen:
         self.R = R
         self.kind = kind
         self.rr = reject_rich
-        self.nd = 2 if kind == "legacy" else R.choice([2, 2, 3])
+        self.nd = 2 if kind == "legacy" else R.choice([2, 2, 2, 3, 3, 1, 4, 5])
         self.torus = (R.random() < 0.15) if reject_rich else (R.random() < 0.5)
         self.bounds = []
         for _ in range(self.nd):
@@ -529,6 +613,13 @@ class Gen:
         self.next_id = 1
         self.lines = []
         self.removed = []
+        # references to agent_positions the user keeps.  They are used only where any growth policy gives the same answer: the
+        # initial array (n_agents rows) must be re-allocated by the first add that finds it full and not before, and no array is
+        # re-allocated without an add.  (How much the array grows is the model's `growBy`; it is not observed.)
+        self.cap0 = 0  # rows of the initial array (set by scenario())
+        self.realloc = False  # the initial array has been replaced
+        self.nnew = 0  # adds so far
+        self.held = {}  # slot -> (adds when taken, length, taken while the initial array was in use)
 
     # coordinates --------------------------------------------------------------------
     def coord(self, i, oob_p):
@@ -563,6 +654,16 @@ class Gen:
             if self.sp.inside(p):
                 return p
         return tuple(lo for lo, _ in self.bounds)
+
+    def half_way(self, p):
+        """a point of the space exactly half the size away from p on some axes (both periodic images equally near)"""
+        q = list(p)
+        for i, (lo, hi) in enumerate(self.bounds):
+            size = hi - lo
+            if size % 2 == 0 and self.R.random() < 0.7:
+                q[i] = p[i] + size // 2 if self.sp.inside([p[i] + size // 2 if j == i else x for j, x in enumerate(p)]) else p[i] - size // 2
+        q = tuple(q)
+        return q if self.sp.inside(q) else tuple(p)
 
     def radius(self, pt):
         R = self.R
@@ -637,6 +738,8 @@ class Gen:
                 self.emit(f"nbrs {self.fmt(pt)} {R.choice([r, self.radius(pt)])} {incl}")
         elif k < 0.96:
             p, q = self.inside_point(), self.inside_point()
+            if self.torus and R.random() < 0.3:
+                q = self.half_way(p)  # exactly half-way round: the tie of the heading rule
             if not self.torus and R.random() < 0.2:
                 p = self.point(0.4)
             self.emit(f"dist {self.fmt(p)} {self.fmt(q)}")
@@ -644,6 +747,20 @@ class Gen:
             self.emit(f"heading {self.fmt(q)} {self.fmt(p)}")
         else:
             self.emit(f"{R.choice(['oob', 'adj'])} {self.fmt(self.point(0.3))}")
+        if sp.order and not self.rr and R.random() < 0.025:
+            # the user assigns agent.pos directly; with a live cache get_neighbors keeps answering for the old position
+            a = self.member() if R.random() < 0.85 or not self.removed else R.choice(self.removed)
+            old = sp.pos.get(a)
+            p = self.point(0.2)
+            if R.random() < 0.6:
+                self.emit(f"nbrs {self.fmt(self.inside_point())} {R.choice([64, 200, 1000])} 1")  # make sure the cache is live
+            self.emit(f"setpos {a} {self.fmt(p)}")
+            if a in sp.pos:
+                sp.pos[a] = tuple(p)
+            self.emit(f"pos {a}")
+            for q in ([old, p] if old is not None else [p]):
+                if self.sp.inside(q) or not self.torus:
+                    self.emit(f"nbrs {self.fmt(q)} {R.choice([0, 1, 64])} 1")
         if self.rr and R.random() < 0.5:
             self.emit(R.choice(["agents", f"pos {self.member() or 1}", f"nbrs {self.fmt(self.inside_point())} 200 1"]))
 
@@ -652,6 +769,9 @@ class Gen:
         a = self.next_id
         self.next_id += 1
         self.emit(f"new {a}")
+        self.nnew += 1
+        if self.cap0 <= len(self.sp.order):
+            self.realloc = True  # the initial array is full: this add re-allocates
         self.sp.pos[a] = None
         self.sp.order.append(a)
         p = self.point(0.15) if self.torus else self.inside_point()
@@ -671,15 +791,72 @@ class Gen:
             v = sp.assign(p)
             if v is not None:
                 sp.pos[a] = v
+        elif k < 0.455:
+            # agent.position += v (the idiom of the boid example); often leaves the space
+            a = self.member()
+            if sp.pos[a] is None:
+                return
+            big = self.rr or R.random() < 0.25
+            dv = []
+            for i in range(self.nd):
+                size = self.bounds[i][1] - self.bounds[i][0]
+                dv.append(R.choice([0, 0, 1, -1, 32, -32, 64, -64, size, -size, size // 2, 2 * size + 1] if big
+                                   else [0, 0, 0, 1, -1, 16, -16, 32, -32]))
+            self.emit(f"iadd {a} {self.fmt(dv)}")
+            v = sp.assign(tuple(x + d for x, d in zip(sp.pos[a], dv)))
+            if v is not None:
+                sp.pos[a] = v
+            if R.random() < 0.5:
+                self.emit(f"get {a}")
+        elif k < 0.47:
+            # a write into whatever `agent.position` returned, then a read
+            a = self.member()
+            j = R.randrange(self.nd) if R.random() < 0.9 else self.nd
+            lo, hi = self.bounds[min(j, self.nd - 1)]
+            self.emit(f"poke {a} {j} {R.choice([lo - 64, hi + 64, lo, hi, lo + (hi - lo) // 2, 12345])}")
+            self.emit(f"get {a}")
+            if R.random() < 0.3:
+                self.emit(f"radius {self.fmt(self.inside_point())} {R.choice([64, 200, 1000])}")
         elif k < 0.49:
+            # user writes that do not go through the position setter
+            r = R.random()
+            if r < 0.3:
+                i = R.randrange(n) if R.random() < 0.9 else n
+                p = self.inside_point() if R.random() < 0.75 else self.point(0.5)
+                self.emit(f"raw {i} {self.fmt(p)}")
+                if i < n:
+                    sp.pos[sp.order[i]] = tuple(p)
+                    self.emit(f"get {sp.order[i]}")
+            elif r < 0.45:
+                a = self.member() if R.random() < 0.8 or not self.removed else R.choice(self.removed)
+                self.emit(f"compat {a} {self.fmt(self.point(0.3))}")
+                self.emit(f"get {a}")
+            elif not self.held or r < 0.65:
+                # v = space.agent_positions, kept while the history goes on
+                slot = R.randrange(3)
+                self.emit(f"hold {slot}")
+                self.held[slot] = (self.nnew, n, not self.realloc)
+                if R.random() < 0.5:
+                    self.emit(f"hread {slot}")
+            else:
+                self.held_use()
+        elif k < 0.505 and self.removed:
+            # life cycle: calls on an agent object after its remove()
+            a = R.choice(self.removed)
+            self.emit(R.choice([f"get {a}", f"set {a} {self.fmt(self.point(0.2))}", f"remove {a}", f"nir {a} 64", f"nn {a} 1",
+                                f"iadd {a} {self.fmt([1] * self.nd)}", f"poke {a} 0 0",
+                                f"dists {self.fmt(self.inside_point())} : {a}", f"diffs {self.fmt(self.inside_point())} : {a}"]))
+            if R.random() < 0.5:
+                self.emit(R.choice(["agents", f"radius {self.fmt(self.inside_point())} 200"]))
+        elif k < 0.545:
             a = self.member()
             self.emit(f"remove {a}")
             del sp.pos[a]
             sp.order.remove(a)
             self.removed.append(a)
-        elif k < 0.57:
+        elif k < 0.59:
             self.emit(f"get {self.member()}")
-        elif k < 0.62:
+        elif k < 0.63:
             self.emit("agents")
         elif k < 0.72:
             pt = self.inside_point()
@@ -695,6 +872,8 @@ class Gen:
             self.emit(f"nn {self.member()} {max(kk, 0)}")
         elif k < 0.95:
             pt = self.inside_point()
+            if self.torus and sp.order and R.random() < 0.3 and sp.pos[sp.order[-1]] is not None:
+                pt = self.half_way(sp.pos[R.choice([a for a in sp.order if sp.pos[a] is not None])])
             sub = ""
             if R.random() < 0.4:
                 sub = " : " + " ".join(str(R.choice(sp.order)) for _ in range(R.randrange(0, 4)))
@@ -704,8 +883,76 @@ class Gen:
                 self.emit(f"diffs {self.fmt(pt)}{sub}")
         else:
             self.emit(f"{R.choice(['inb', 'correct'])} {self.fmt(self.point(0.3))}")
+        if self.nd >= 2 and sp.order and R.random() < 0.02:
+            self.wrong_length()
+        if self.held and sp.order and R.random() < 0.15:
+            self.held_use()  # a kept reference is used again later: after re-slicing, compaction, re-allocation
         if self.rr and R.random() < 0.5 and sp.order:
             self.emit(R.choice(["agents", f"get {self.member()}", f"radius {self.fmt(self.inside_point())} 200"]))
+
+    def wrong_length(self):
+        """a vector with the wrong number of coordinates: one element (numpy broadcasts it) or nd-1 / nd+1 (ValueError)"""
+        R, sp = self.R, self.sp
+        n = len(sp.order)
+        klen = R.choice([1, 1, 1, self.nd - 1, self.nd + 1])
+        full = list(self.point(0.15))
+        v = [full[0]] if klen == 1 else full[:klen] if klen < self.nd else full + [full[0]]
+        rep = tuple(v * self.nd) if klen == 1 else None  # what a one-element vector stands for
+        op = R.choice(["set", "set", "iadd", "raw", "radius", "knn", "dists", "diffs", "inb", "correct"])
+        a = self.member()
+        if op == "set":
+            self.emit(f"set {a} {self.fmt(v)}")
+            if rep is not None and sp.assign(rep) is not None:
+                sp.pos[a] = sp.assign(rep)
+            self.emit(f"get {a}")
+        elif op == "iadd":
+            if sp.pos[a] is None:
+                return
+            d = [R.choice([0, 1, -1, 16, -16, 64])] * klen if klen == 1 else v
+            self.emit(f"iadd {a} {self.fmt(d)}")
+            if klen == 1:
+                t = sp.assign(tuple(x + d[0] for x in sp.pos[a]))
+                if t is not None:
+                    sp.pos[a] = t
+            self.emit(f"get {a}")
+        elif op == "raw":
+            i = R.randrange(n) if R.random() < 0.9 else n
+            self.emit(f"raw {i} {self.fmt(v)}")
+            if rep is not None and i < n:
+                sp.pos[sp.order[i]] = rep
+            if i < n:
+                self.emit(f"get {sp.order[i]}")
+        elif op == "radius":
+            self.emit(f"radius {self.fmt(v)} {R.choice([64, 200, 1000])}")
+        elif op == "knn":
+            self.emit(f"knn {self.fmt(v)} {R.choice([1, n, 0])}")
+        elif op in ("dists", "diffs"):
+            sub = "" if R.random() < 0.6 else " : " + " ".join(str(R.choice(sp.order + self.removed[:1])) for _ in range(R.randrange(0, 3)))
+            self.emit(f"{op} {self.fmt(v)}{sub}")
+        else:
+            self.emit(f"{op} {self.fmt(v)}")
+
+    def held_use(self):
+        """read or write through a reference to agent_positions taken earlier"""
+        R, sp = self.R, self.sp
+        n = len(sp.order)
+        usable = [k for k, (at, _, initial) in sorted(self.held.items()) if initial or at == self.nnew]
+        if not usable:
+            return
+        slot = R.choice(usable)
+        if R.random() < 0.45:
+            self.emit(f"hread {slot}")
+            return
+        at, hlen, initial = self.held[slot]
+        live = at == self.nnew or not self.realloc  # still a view of the space's array
+        i = R.randrange(hlen) if hlen and R.random() < 0.9 else hlen
+        p = self.inside_point()
+        self.emit(f"hraw {slot} {i} {self.fmt(p)}")
+        if i < hlen and live and i < n:
+            sp.pos[sp.order[i]] = tuple(p)  # same array, a row in use: the agent that has the row now is moved
+        self.emit(R.choice([f"hread {slot}", f"get {self.member()}", f"hread {R.choice(usable)}"]))
+        if R.random() < 0.5:
+            self.emit(f"radius {self.fmt(self.inside_point())} {R.choice([64, 200, 1000])}")
 
     def scenario(self, nops=None):
         R = self.R
@@ -715,7 +962,7 @@ class Gen:
             if R.random() < 0.3:
                 self.emit(f"nbrs {self.fmt(self.inside_point())} {R.choice([0, 64, 1000])} 1")  # query on the empty space
         else:
-            cap = R.choice(CAPS)
+            cap = self.cap0 = R.choice(CAPS)
             head = f"scenario exp {R.choice('aaal')} {int(self.torus)} {cap} " + " ".join(f"{lo} {hi}" for lo, hi in self.bounds)
             if R.random() < 0.3:
                 pt = self.inside_point()
